@@ -587,15 +587,19 @@ where
         };
 
         if req.claimed {
+            // The end may never have been claimed successfully if the claim was abandoned before
+            // the broker's reply arrived. The broker doesn't report success in that case.
+            let closed = msg.result == CloseChannelEndResult::Ok;
+
             match req.end {
                 ChannelEnd::Sender => {
                     let contained = self.senders.remove(&req.cookie);
-                    debug_assert!(contained.is_some());
+                    debug_assert!(contained.is_some() || !closed);
                 }
 
                 ChannelEnd::Receiver => {
                     let contained = self.receivers.remove(&req.cookie);
-                    debug_assert!(contained.is_some());
+                    debug_assert!(contained.is_some() || !closed);
                 }
             }
         }
